@@ -8,6 +8,7 @@ T1_MODULES = {
     "C06": ["vt.contracts.core_slicing"],
     "C07": ["vt.contracts.utils_maxcounter"],
     "C09": ["vt.contracts.con_cost"],
+    "C10": ["vt.contracts.path_convert"],
     "C14": ["vt.contracts.reusable_policy"],
     "C18": ["vt.contracts.legs_rules"],
     "C19": ["vt.contracts.exponent"],
